@@ -1,5 +1,6 @@
-(* C02 — parallel evaluation equals serial evaluation under every schedule (relations; see PARTIAL below).
-   Property theorems only; proofs in Engine/{ParSched,ParProofs,MainPar}.v.  Model: Engine/ParStep.v — workers
+(* C02 — parallel evaluation equals serial evaluation under every schedule (relations with negation / aggregation, and
+   programs mixing relations and lattices without aggregation; see RESIDUE below).
+   Property theorems only; proofs in Engine/{ParSched,ParProofs,MainPar,ParLatProofs}.v and LatEngine/LatPar{Head,Items,Iter,Main}.v.  Model: Engine/ParStep.v — workers
    perform atomic steps (frozen reads of total / delta, atomic insert_if_not_present into new, push + index update
    after a successful insert); a schedule is an arbitrary list of worker numbers. *)
 From Coq Require Import List ZArith Bool Permutation.
@@ -9,6 +10,17 @@ From AV Require Import Engine.InterfaceAgg Engine.Strat Engine.StratFixed Engine
 From AV Require Engine.ParLat.
 From AV Require Engine.ParLatProofs.
 From AV Require LatEngine.LatSem.
+From AV Require LatEngine.LatSyntax.
+From AV Require LatEngine.LatEval.
+From AV Require LatEngine.LatPlan.
+From AV Require LatEngine.LatMain.
+From AV Require LatEngine.LatVocab.
+From AV Require LatEngine.LatExample.
+From AV Require LatEngine.LatParModel.
+From AV Require LatEngine.LatParHead.
+From AV Require LatEngine.LatParIter.
+From AV Require LatEngine.LatParMain.
+From AV Require LatEngine.LatParExample.
 Import ListNotations.
 
 (* one iteration: for every distribution of the derived facts over the workers and every interleaving that lets all
@@ -121,16 +133,173 @@ Example c02_lattice_example : forall kfirst,
   ParLat.finished s = true /\ ParLat.lrows s = [(7, 0); (5, 2)]%Z /\ ParLat.lother s = [1%nat] /\ ParLat.lheld s = [] /\ ParLat.lchg s = true.
 Proof. exact ParLatProofs.ex_push_race. Qed.
 
-(* PARTIAL: the per-iteration theorems above are not yet composed into a whole parallel lattice ENGINE theorem (iterations, SCCs,
-   rule evaluation over RwLock-guarded rows); that composition is exercised by the tie only (C03's programs and the lattice +
-   aggregate family through ascent_par! against the Kleene oracle).
-   RESIDUE that no executable model can exhibit: the real DashMap / RwLock / Mutex / boxcar implementations, rayon's
-   work stealing and the Relaxed store to __changed being visible after the scope's join are assumed linearizable /
-   correct (trusted base); the schedule space of the real binary is sampled under seeded perturbation
-   (gen/props/c02.py), not enumerated. *)
+(* new's key index and new's other indices list the SAME row numbers after every finishing schedule (a body clause of the next
+   iteration may read delta through either), and they are numbers of existing rows *)
+Theorem c02_lattice_new_views_agree : forall (K V : Type) (keqb : K -> K -> bool) (jm : V -> V -> V * bool) mx kfirst setidx dl tt
+    (le : V -> V -> Prop) R0 work sched,
+  (forall a b : K, keqb a b = true <-> a = b) -> LatSem.lat_laws le jm ->
+  ParLatProofs.init_ok keqb le dl tt R0 [] [] false work ->
+  ParLat.finished (ParLat.run_sched keqb jm mx kfirst setidx dl tt (ParLat.par_init R0 [] [] false work) sched) = true ->
+  forall i, In i (ParLat.lother (ParLat.run_sched keqb jm mx kfirst setidx dl tt (ParLat.par_init R0 [] [] false work) sched))
+            <-> exists k, ParLat.klook keqb k (ParLat.lnkey (ParLat.run_sched keqb jm mx kfirst setidx dl tt (ParLat.par_init R0 [] [] false work) sched)) = Some i.
+Proof.
+  intros K V keqb jm mx kfirst setidx dl tt le R0 work sched H1 H2 H3 H4.
+  exact (LatParHead.parlat_views_agree keqb H1 jm mx kfirst setidx dl tt le H2 R0 work H3 sched H4).
+Qed.
+Theorem c02_lattice_new_lists_rows : forall (K V : Type) (keqb : K -> K -> bool) (jm : V -> V -> V * bool) mx kfirst setidx dl tt
+    (le : V -> V -> Prop) R0 work sched i,
+  (forall a b : K, keqb a b = true <-> a = b) ->
+  ParLatProofs.init_ok keqb le dl tt R0 [] [] false work ->
+  In i (ParLat.lother (ParLat.run_sched keqb jm mx kfirst setidx dl tt (ParLat.par_init R0 [] [] false work) sched)) ->
+  (i < length (ParLat.lrows (ParLat.run_sched keqb jm mx kfirst setidx dl tt (ParLat.par_init R0 [] [] false work) sched)))%nat.
+Proof.
+  intros K V keqb jm mx kfirst setidx dl tt le R0 work sched i H1 H3.
+  exact (LatParHead.parlat_other_valid keqb H1 jm mx kfirst setidx dl tt le R0 work H3 sched i).
+Qed.
+
+(* ---- lattice relations under ascent_par!: the WHOLE ENGINE.  Model: LatEngine/LatParModel.v par_lat_run_plan - the SCCs in plan
+   order, the SCC loop, and in every iteration of every SCC: any number of workers; for every dynamic lattice relation the step
+   machine of Engine/ParLat.v above; ONE global schedule interleaving the atomic steps of all head updates in any way; rule
+   evaluation that reads a lattice row with ANY value the row has had so far during the iteration (rows[i].read().clone()),
+   subject to causality (a contribution is derived from values seen before its head update starts) and exhaustiveness (every
+   variant's nested loops are executed completely, in the written order or with a reorderable simple join swapped).
+   Hypotheses as in C03 (c03_least_fixed_point): plan accepted by the validator and the lattice plan check, no aggregation,
+   semantically monotone program, lattice laws (C16), input with one row per key. *)
+
+(* every parallel run ends with one row per key holding THE least fixed point: a directed set (one row per key), closed under the
+   rules, above the input, below every directed closed set above the input *)
+Theorem c02_par_lat_run_least_fixed_point :
+  forall (V : Type) (I : LatSyntax.linterp V) islat lle jm arities P pl Rin st,
+  LatSyntax.veqb_ok I -> (forall r, islat r = true -> LatSem.lat_laws (lle r) (jm r)) ->
+  arities_functional arities -> no_agg P = true -> LatSem.monotone_program I islat lle P ->
+  validate arities P pl = true -> LatPlan.lat_plan_ok islat arities pl = true ->
+  LatMain.input_ok I islat lle arities Rin ->
+  LatParModel.par_lat_run_plan I islat jm pl Rin st ->
+  let F := LatSem.dbof (LatEval.l_rows st) in
+  LatSem.directed I islat lle F /\ LatSem.closedH I islat lle P F /\ LatSem.dble I islat lle (LatSem.dbof Rin) F /\
+  forall J : LatSem.db, LatSem.directed I islat lle J -> LatSem.closedH I islat lle P J -> LatSem.dble I islat lle (LatSem.dbof Rin) J ->
+    LatSem.dble I islat lle F J.
+Proof.
+  intros V I islat lle jm arities P pl Rin st H1 H2 H3 H4 H5 H6 H7 H8 H9.
+  exact (LatParMain.par_lat_run_least_fixed_point I H1 islat lle jm H2 arities H3 P H4 H5 pl H6 H7 Rin H8 st H9).
+Qed.
+
+(* literally one row per key ... *)
+Theorem c02_par_lat_run_one_row_per_key :
+  forall (V : Type) (I : LatSyntax.linterp V) islat lle jm arities P pl Rin st,
+  LatSyntax.veqb_ok I -> (forall r, islat r = true -> LatSem.lat_laws (lle r) (jm r)) ->
+  arities_functional arities -> no_agg P = true -> LatSem.monotone_program I islat lle P ->
+  validate arities P pl = true -> LatPlan.lat_plan_ok islat arities pl = true ->
+  LatMain.input_ok I islat lle arities Rin ->
+  LatParModel.par_lat_run_plan I islat jm pl Rin st ->
+  forall r, islat r = true -> NoDup (map LatSyntax.tkey (LatEval.l_rows st r)).
+Proof.
+  intros V I islat lle jm arities P pl Rin st H1 H2 H3 H4 H5 H6 H7 H8 H9.
+  exact (LatParMain.par_lat_run_unique_key I H1 islat lle jm H2 arities H3 P H4 H5 pl H6 H7 Rin H8 st H9).
+Qed.
+(* ... and the input rows are still there, at the same row numbers, with the same keys and values that only went up *)
+Theorem c02_par_lat_run_inputs_raised :
+  forall (V : Type) (I : LatSyntax.linterp V) islat lle jm arities P pl Rin st,
+  LatSyntax.veqb_ok I -> (forall r, islat r = true -> LatSem.lat_laws (lle r) (jm r)) ->
+  arities_functional arities -> no_agg P = true -> LatSem.monotone_program I islat lle P ->
+  validate arities P pl = true -> LatPlan.lat_plan_ok islat arities pl = true ->
+  LatMain.input_ok I islat lle arities Rin ->
+  LatParModel.par_lat_run_plan I islat jm pl Rin st ->
+  forall r i row, nth_error (Rin r) i = Some row ->
+    exists row', nth_error (LatEval.l_rows st r) i = Some row' /\ LatSem.tle I islat lle r row row'.
+Proof.
+  intros V I islat lle jm arities P pl Rin st H1 H2 H3 H4 H5 H6 H7 H8 H9.
+  exact (LatParMain.par_lat_run_grows I H1 islat lle jm H2 arities H3 P H4 H5 pl H6 H7 Rin H8 st H9).
+Qed.
+
+(* ... hence the rows of the serial engine (LatEval.run_plan, C03) on the same input - the same set of rows in every relation, the same
+   key -> value map in every lattice relation - for every parallel run and every iteration-order / len_estimate oracle of the serial model *)
+Theorem c02_par_lat_equals_serial :
+  forall (V : Type) (I : LatSyntax.linterp V) islat lle jm arities P pl Rin shuffle swap_oracle fuel st_par st_ser,
+  LatSyntax.veqb_ok I -> (forall r, islat r = true -> LatSem.lat_laws (lle r) (jm r)) ->
+  arities_functional arities -> no_agg P = true -> LatSem.monotone_program I islat lle P ->
+  validate arities P pl = true -> LatPlan.lat_plan_ok islat arities pl = true ->
+  LatMain.input_ok I islat lle arities Rin ->
+  (forall n l x, In x (shuffle n l) <-> In x l) ->
+  LatParModel.par_lat_run_plan I islat jm pl Rin st_par ->
+  LatEval.run_plan I islat jm shuffle swap_oracle fuel pl Rin = Some st_ser ->
+  (forall r t, In t (LatEval.l_rows st_par r) <-> In t (LatEval.l_rows st_ser r))
+  /\ (forall r, islat r = true -> Permutation (LatEval.l_rows st_par r) (LatEval.l_rows st_ser r)).
+Proof.
+  intros V I islat lle jm arities P pl Rin shuffle swap_oracle fuel st_par st_ser H1 H2 H3 H4 H5 H6 H7 H8 H9 H10 H11.
+  exact (LatParMain.par_lat_equals_serial I H1 islat lle jm H2 arities H3 P H4 H5 pl H6 H7 Rin H8 shuffle swap_oracle fuel st_par st_ser H9 H10 H11).
+Qed.
+
+(* the two halves: soundness of every parallel run below every directed closed set above the input; closedness at exit *)
+Theorem c02_par_lat_run_sound :
+  forall (V : Type) (I : LatSyntax.linterp V) islat lle jm arities P pl Rin st (J : LatSem.db),
+  LatSyntax.veqb_ok I -> (forall r, islat r = true -> LatSem.lat_laws (lle r) (jm r)) ->
+  arities_functional arities -> no_agg P = true -> LatSem.monotone_program I islat lle P ->
+  validate arities P pl = true -> LatPlan.lat_plan_ok islat arities pl = true ->
+  LatMain.input_ok I islat lle arities Rin ->
+  LatSem.directed I islat lle J -> LatSem.closedH I islat lle P J ->
+  (forall r row, In row (Rin r) -> LatSem.below I islat lle J (r, row)) ->
+  LatParModel.par_lat_run_plan I islat jm pl Rin st ->
+  forall r row, In row (LatEval.l_rows st r) -> LatSem.below I islat lle J (r, row).
+Proof.
+  intros V I islat lle jm arities P pl Rin st J H1 H2 H3 H4 H5 H6 H7 H8 HJ1 HJ2 HJ3 H9.
+  exact (LatParMain.par_lat_run_sound I H1 islat lle jm H2 arities H3 P H4 H5 pl H6 H7 Rin H8 J st HJ1 HJ2 HJ3 H9).
+Qed.
+Theorem c02_par_lat_run_closed_at_exit :
+  forall (V : Type) (I : LatSyntax.linterp V) islat lle jm arities P pl Rin st,
+  LatSyntax.veqb_ok I -> (forall r, islat r = true -> LatSem.lat_laws (lle r) (jm r)) ->
+  arities_functional arities -> no_agg P = true -> LatSem.monotone_program I islat lle P ->
+  validate arities P pl = true -> LatPlan.lat_plan_ok islat arities pl = true ->
+  LatMain.input_ok I islat lle arities Rin ->
+  LatParModel.par_lat_run_plan I islat jm pl Rin st ->
+  LatSem.closedH I islat lle P (LatSem.dbof (LatEval.l_rows st)).
+Proof.
+  intros V I islat lle jm arities P pl Rin st H1 H2 H3 H4 H5 H6 H7 H8 H9.
+  exact (LatParMain.par_lat_run_closed I H1 islat lle jm H2 arities H3 P H4 H5 pl H6 H7 Rin H8 st H9).
+Qed.
+
+(* non-vacuity: d(y, v) <-- d(x, v), e(x, y) over Dual<u32> with the plan the real macro dumps for it (one looping SCC, a
+   reorderable simple join): the hypotheses hold, and there is a TWO-WORKER run of two iterations in which worker 1 reads row 1
+   after worker 0 has raised it (it observes an intermediate value) - ending in d = {0 -> 3, 1 -> 3}, as the serial model does *)
+Example c02_par_lat_example_hypotheses :
+  LatSyntax.veqb_ok LatVocab.lv_interp /\ (forall r, LatExample.sp_islat r = true -> LatSem.lat_laws (LatExample.sp_lle r) (LatExample.sp_jm r)) /\
+  arities_functional LatParExample.px_arities /\ no_agg LatParExample.px_prog = true /\
+  LatSem.monotone_program LatVocab.lv_interp LatExample.sp_islat LatExample.sp_lle LatParExample.px_prog /\
+  validate LatParExample.px_arities LatParExample.px_prog LatParExample.px_plan = true /\
+  LatPlan.lat_plan_ok LatExample.sp_islat LatParExample.px_arities LatParExample.px_plan = true /\
+  LatMain.input_ok LatVocab.lv_interp LatExample.sp_islat LatExample.sp_lle LatParExample.px_arities LatParExample.px_input.
+Proof.
+  split; [exact LatExample.sp_eq|]. split; [exact LatExample.sp_laws|]. split; [exact LatParExample.px_arities_functional|].
+  destruct LatParExample.px_checks as [A [B C]]. split; [exact C|]. split; [exact LatParExample.px_monotone|].
+  split; [exact A|]. split; [exact B | exact LatParExample.px_input_ok].
+Qed.
+Example c02_par_lat_example_run : exists st,
+  LatParModel.par_lat_run_plan LatVocab.lv_interp LatExample.sp_islat LatExample.sp_jm LatParExample.px_plan LatParExample.px_input st
+  /\ LatEval.l_rows st 1%nat = [[0; 3]; [1; 3]]%Z
+  /\ option_map (fun s => LatEval.l_rows s 1%nat)
+       (LatEval.run_plan LatVocab.lv_interp LatExample.sp_islat LatExample.sp_jm LatVocab.lv_shuffle LatVocab.lv_swap 10 LatParExample.px_plan LatParExample.px_input)
+     = Some [[0; 3]; [1; 3]]%Z.
+Proof.
+  exists LatParExample.px_final. split; [exact LatParExample.px_parallel_run|]. split; [exact LatParExample.px_result | exact LatParExample.px_serial].
+Qed.
+
+(* SCOPE of the lattice engine theorems: programs without aggregation (the hypothesis no_agg, as in C03; aggregates over parallel
+   lattice relations are C04 / C05's subject and are exercised through ascent_par! by the tie only); a run that ENDS (per iteration
+   every reachable state of the head updates can be completed: c02_lattice_can_finish; termination of the SCC loop is a property
+   of the program, e.g. finite lattice height, not of the engine).  The outcome of the head update of a PLAIN relation inside such a
+   program is taken from c02_iteration_schedule_independent (new rows = the derived facts absent from total / delta, each once): it
+   is part of the model LatParModel.par_lat_iteration, not re-derived from ParStep's steps over the lattice engine's value universe.
+   RESIDUE that no model can exhibit: the relational model is tied to the real ascent_par! binaries by sampling only (C03's programs
+   and the lattice + aggregate family under seeded schedule perturbation against the Kleene oracle, gen/props/c02.py); the real
+   DashMap / RwLock / Mutex / boxcar implementations, rayon's work stealing and the Relaxed store to __changed being visible after
+   the scope's join are assumed linearizable / correct (trusted base); the schedule space of the real binary is sampled, not enumerated. *)
 
 Print Assumptions c02_iteration_schedule_independent. Print Assumptions c02_progress.
 Print Assumptions c02_par_run_least_model. Print Assumptions c02_par_equals_serial. Print Assumptions c02_par_run_stratified_model.
 Print Assumptions c02_lattice_one_row_per_key. Print Assumptions c02_lattice_values_are_the_serial_ones. Print Assumptions c02_lattice_reindexed.
 Print Assumptions c02_lattice_reindexed_once. Print Assumptions c02_lattice_changed_flag. Print Assumptions c02_lattice_progress.
 Print Assumptions c02_lattice_can_finish. Print Assumptions c02_lattice_example.
+Print Assumptions c02_lattice_new_views_agree. Print Assumptions c02_lattice_new_lists_rows.
+Print Assumptions c02_par_lat_run_least_fixed_point. Print Assumptions c02_par_lat_run_one_row_per_key. Print Assumptions c02_par_lat_run_inputs_raised.
+Print Assumptions c02_par_lat_equals_serial. Print Assumptions c02_par_lat_run_sound. Print Assumptions c02_par_lat_run_closed_at_exit.
+Print Assumptions c02_par_lat_example_hypotheses. Print Assumptions c02_par_lat_example_run.
